@@ -212,7 +212,11 @@ pub fn check_exact(w: &mut World, st: &Status, waiters: usize, at: &str) {
     let idle = w.idle();
     // the first exact check after an abandoned get() also decides C03
     // ("status() again reports the earlier figures")
-    let props: Vec<&'static str> = if w.abandon_mark { vec!["C11", "C03"] } else { vec!["C11"] };
+    let mut props: Vec<&'static str> = if w.abandon_mark { vec!["C11", "C03"] } else { vec!["C11"] };
+    // "close() ... leaves nothing behind": the books of a closed pool at rest
+    if w.close_returned {
+        props.push("C06");
+    }
     if st.size != size {
         w.violate(&props, "size-at-rest", format!("{}: status().size {} but {} objects exist (idle {} + checked out {})", at, st.size, size, idle, w.held()));
     }
